@@ -106,6 +106,22 @@ pub fn class_stmt(g: &mut Gen, out: &mut Vec<Stmt>) {
         }
         if g.rd.chance(1, 6) {
             body.push(Stmt::new(StmtKind::Return(None)));
+        } else if g.rd.chance(1, 6) {
+            // a bare `return;` inside a try block of the constructor: the finally block runs and the
+            // constructor still yields the instance
+            g.label_pub("ctor_return_in_try");
+            let f = Gen::field_names()[3].to_string();
+            let set = Stmt::expr(Expr::assign(Target::Prop(Expr::SelfE, f.clone()), Expr::Num(7.0)));
+            if !fields.contains(&f) {
+                fields.push(f);
+            }
+            let ret = if g.rd.flag() {
+                Stmt::new(StmtKind::Return(None))
+            } else {
+                Stmt::new(StmtKind::If(Expr::True, vec![Stmt::new(StmtKind::Return(None))], None))
+            };
+            body.push(Stmt::new(StmtKind::Try(vec![set, ret], None, Some(vec![Stmt::print(Expr::str(&format!("ctor finally {}", name)))]))));
+            body.push(Stmt::print(Expr::str("not reached")));
         }
         methods.push(fdef("new", FnKind::Init, params, body));
         ctor = Some(("new".into(), arity));
@@ -317,8 +333,27 @@ pub fn inst_use(g: &mut Gen, out: &mut Vec<Stmt>) {
     let n = 1 + g.rd.below(3);
     for _ in 0..n {
         let gd = g.guard_begin_pub();
-        let s = match g.rd.below(11) {
-            9 | 10 => {
+        let s = match g.rd.below(12) {
+            11 if methods.iter().any(|m| !m.2) => {
+                // a field named like a method holds that very method taken from ANOTHER instance of
+                // the class: calling it through the holder still runs it on the instance it was taken
+                // from (whose first field is made different, so the receivers can be told apart)
+                let cands: Vec<_> = methods.iter().filter(|m| !m.2).cloned().collect();
+                let (m, a, _) = cands[g.rd.below(cands.len())].clone();
+                let (cn, ar) = g.class_info(ci).1.unwrap_or(("new".to_string(), 0));
+                let o2 = g.fresh_pub("o");
+                let cargs: Vec<Expr> = (0..ar).map(|q| Expr::Num(q as f64 + 5.0)).collect();
+                out.push(Stmt::var(&o2, Some(Expr::invoke(Expr::var(&cname), &cn, cargs))));
+                g.declare_pub(&o2, Kind::Inst(ci), false);
+                if let Some(f) = fields.first() {
+                    out.push(Stmt::expr(Expr::assign(Target::Prop(Expr::var(&o2), f.clone()), Expr::Num(1000.0 + g.rd.below(9) as f64))));
+                }
+                out.push(Stmt::expr(Expr::assign(Target::Prop(Expr::var(&o), m.clone()), Expr::get(Expr::var(&o2), &m))));
+                let args: Vec<Expr> = (0..a).map(|q| Expr::Num(q as f64 + 1.0)).collect();
+                g.label_pub("field_holds_other_instances_method");
+                Stmt::print(Expr::invoke(Expr::var(&o), &m, args))
+            }
+            9 | 10 | 11 => {
                 // a member read off the class object and kept as a value — a static method (which
                 // must still know the class it was taken from: `Self`), the constructor, or an
                 // instance method or unknown member (errors) — called later, directly or out of a
